@@ -155,6 +155,8 @@ func c15() {
 			nearNames = append(nearNames, ms[r0.Intn(len(ms))])
 		}
 	}
+	// the library's own text for a value without a name is no name either (and would denote a different action when read back)
+	nearNames = append(nearNames, "unknown", "unknown", "Unknown", "UNKNOWN")
 	nNear := 0
 	for _, nm := range nearNames {
 		isDoc := false
